@@ -3,7 +3,7 @@ package c04
 import (
 	"encoding/json"
 	"fmt"
-	"sort"
+	"strings"
 
 	"verifharness/engines/c05"
 	"verifharness/engines/xeng"
@@ -21,6 +21,10 @@ func strayElementFaults(meta *gen.Meta) (int, error) {
 		return 0, err
 	}
 	n := 0
+	cf := &gen.CaseFile{Dir: outDir, Prop: "C04", Kind: "elems", Requires: []string{"Base.Prelude", "Model.ElemPanic", "Corr.Corr_Elems"}, Type: "elem_case",
+		Checks: []gen.Check{{Label: "corr", Fn: "elem_corr"}, {Label: "c04", Fn: "elem_mon"}, {Label: "monmodel", Fn: "elem_monmodel"}}, Shard: 400}
+	var descr []any
+	defer func() { _ = meta.AddCaseFile(cf, descr) }()
 	for _, p := range probes {
 		if p.Built.GenErr != "" || p.Built.BuildErr != "" {
 			continue // reported by C05's use of the same probes
@@ -60,32 +64,43 @@ func strayElementFaults(meta *gen.Meta) (int, error) {
 				case len(r.Responses) != 1 || json.Unmarshal(r.Responses[0], &resp) != nil:
 					problem = fmt.Sprintf("%d responses", len(r.Responses))
 				default:
+					// what can be said per element goes to the model and the monitor in Coq (Corr_Elems); the rest is
+					// judged here: the list is there in full, its sibling kept its value, every error is an element's
+					errs := make([]int, 4)
+					for _, e := range resp.Errors {
+						i := -1
+						if len(e.Path) == 2 && e.Path[0] == "nodes" {
+							if f, ok := e.Path[1].(float64); ok && f >= 0 && f < 4 {
+								i = int(f)
+							}
+						}
+						if i < 0 {
+							problem = fmt.Sprintf("an error at %v, which is no element of the list", e.Path)
+							break
+						}
+						errs[i]++
+					}
 					if len(resp.Data.Nodes) != 4 || resp.Data.Scalar == nil {
 						problem = "positions outside the failed elements lost their value"
 					}
-					isBad := map[int]bool{}
-					for _, i := range bad {
-						isBad[i] = true
-					}
-					for i, e := range resp.Data.Nodes {
-						if isBad[i] != (e == nil) {
-							problem = fmt.Sprintf("element %d is null=%v", i, e == nil)
+					if problem == "" {
+						isBad := map[int]bool{}
+						for _, i := range bad {
+							isBad[i] = true
 						}
-					}
-					var paths []string
-					for _, e := range resp.Errors {
-						paths = append(paths, fmt.Sprint(e.Path))
-					}
-					sort.Strings(paths)
-					var want []string
-					for _, i := range bad {
-						want = append(want, fmt.Sprintf("[nodes %d]", i))
-					}
-					if fmt.Sprint(paths) != fmt.Sprint(want) {
-						problem = fmt.Sprintf("errors at %v, expected one at each of %v", paths, want)
-					}
-					if r.Recovers != len(bad) {
-						problem = fmt.Sprintf("the recover hook ran %d times for %d panics", r.Recovers, len(bad))
+						var plan, nulls, es []string
+						for i, e := range resp.Data.Nodes {
+							plan = append(plan, gen.Bool(isBad[i]))
+							nulls = append(nulls, gen.Bool(e == nil))
+							es = append(es, fmt.Sprint(errs[i]))
+						}
+						cf.Add(fmt.Sprintf("{| ec_plan := [%s]; ec_nulls := [%s]; ec_errs := [%s]%%nat; ec_recovers := %d%%nat |}",
+							strings.Join(plan, "; "), strings.Join(nulls, "; "), strings.Join(es, "; "), r.Recovers))
+						body := ""
+						if len(r.Responses) > 0 {
+							body = string(r.Responses[0])
+						}
+						descr = append(descr, map[string]any{"config": p.Cfg.Name, "query": cases[k].Query, "oracle": o, "run": k, "panicking_elements": bad, "response": body, "recovers": r.Recovers})
 					}
 				}
 				if problem != "" {
